@@ -78,14 +78,18 @@ def negated_literal_zero(v, prop="", text="", ref=None, **kw):
     if name in ref.derivs:
         name = ref.derivs[name]
     names = closure_names(ref, name) if name in ref.assigns else set(ref.assigns)
-    ev = ref.evaluator(ref.default_point())
+    pt = v.get("_point") or d.get("point") or {}
+    ev = ref.evaluator(dict(ref.default_point(), **pt))
 
     def const_zero(node, src):
+        # a constant sub-expression that is exactly 0, or a product with a literal factor 0 such as 0*x_dt
         fn_ids = {id(c.func) for c in ast.walk(node) if isinstance(c, ast.Call)}
-        if any(isinstance(q, ast.Name) and id(q) not in fn_ids and q.id != "pi" for q in ast.walk(node)):
+        has_names = any(isinstance(q, ast.Name) and id(q) not in fn_ids and q.id != "pi" for q in ast.walk(node))
+        if has_names and not any(isinstance(q, ast.Constant) and q.value == 0 for q in ast.walk(node)):
             return False
         try:
-            return ev.expr(node, src).v == 0
+            r = ev.expr(node, src)
+            return r.v == 0 and r.e == 0
         except Exception:
             return False
 
@@ -302,7 +306,11 @@ def history_dependent_rounding_fold(v, prop="", text="", **kw):
     from ..exec import fresh as FR
     from . import common as C
 
-    lo = C.load_text(text)
+    class _Lo:  # the object the violating code was generated from, if the check handed it over; else a reload
+        value = kw.get("ode")
+        ok = kw.get("ode") is not None
+
+    lo = _Lo if _Lo.ok else C.load_text(text)
     if not lo.ok:
         return None
     if name not in lo.value._lookup:
